@@ -45,6 +45,32 @@ def handle (j : Json) : P Json := do
     | .one => pure (Json.mkObj [("r", "one")])
     | .zero => pure (Json.mkObj [("r", "zero")])
     | .keep a b => pure (Json.mkObj [("r", "keep"), ("i", jIdx a), ("j", jIdx b)])
+  | "ordersubs" =>   -- C08: order_substitutions
+    let m ← pSub (← fld j "m")
+    pure (Json.mkObj [("seq", jSub (orderSubs m))])
+  | "permute" =>     -- C08: map built by Container.permute
+    let perms ← pSub (← fld j "perms")
+    pure (Json.mkObj [("map", jSub (permuteMap perms))])
+  | "lowest" =>      -- C08: get_lowest_avail_indices
+    let n ← (← fld j "n").getNat?
+    let sp ← pSpace (← (← fld j "space").getNat?)
+    let used ← (← arr (← fld j "used")).toList.mapM pName
+    pure (Json.mkObj [("names", jNames (lowestAvail n used sp))])
+  | "registry" =>    -- C08: one (space, spin) slot of Indices, a history of operations
+    let sp ← pSpace (← (← fld j "space").getNat?)
+    let ops ← (← arr (← fld j "ops")).toList.mapM fun o => do
+      match o.getObjVal? "get" with
+      | .ok nm => pure (RegOp.get (← pName nm))
+      | .error _ => pure (RegOp.generic (← (← fld o "generic").getNat?))
+    let init ← match j.getObjVal? "init" with
+      | .ok i => do
+        let cr ← (← arr (← fld i "created")).toList.mapM pName
+        let ge ← (← arr (← fld i "generic")).toList.mapM pName
+        pure ({ created := cr, generic := ge, counter := ← (← fld i "counter").getNat? } : Slot)
+      | .error _ => pure Slot.init
+    let r := Slot.run (baseLetters sp) init ops
+    pure (Json.mkObj [("out", Json.arr (r.2.map jNames).toArray), ("counter", r.1.counter),
+                      ("generic", jNames r.1.generic), ("created", jNames r.1.created)])
   | _ => throw s!"unknown op {op}"
 
 partial def loop (h : IO.FS.Stream) (out : IO.FS.Stream) : IO Unit := do
